@@ -2,11 +2,15 @@
 Line-protocol driver of C11 (model + spec monitor).  Ops:
 
   C11.req    firstRun usersExist method target cookie basic ctype bodyLen
-             => path muxkind pattern kind status location
+             => path muxkind pattern kind status location contentLengthSeen
+     bodyLen is `n` (known length) or `u<n>` (unknown length, n bytes sent).
      one request served by the real admin mux.  `path` (URL.Path as the
      handlers see it), `muxkind` (route | muxredir | muxnotfound) and `pattern`
      (the pattern `ServeMux.Handler` reports) are observations of net/http that
      the model takes as inputs; `kind` is the classified outcome.
+  C11.wire   same fields as C11.req: the request is written byte by byte on a TCP
+             connection to an httptest server running the same handler (real
+             chunked bodies: ContentLength -1 as net/http produces it)
   C11.chain  chain firstRun usersExist method path cookie basic ctype bodyLen => kind
      the real wrapper functions composed as `chain` around a stub handler.
   C11.public path => 0|1          the real isPublicResource
@@ -58,6 +62,14 @@ def parseObs : String → Option Obs
   | "muxNotFound" => some (.mux true)
   | s => (parseResp s).map Obs.resp
 
+/-- Body field: `n` = known length n; `u<n>` = unknown length (ContentLength -1)
+with n bytes actually sent. -/
+def parseLen (s : String) : Option Int :=
+  if s.startsWith "u" then (s.drop 1).toNat?.map (fun _ => (-1 : Int))
+  else s.toNat?.map Int.ofNat
+
+def showLen (s : String) : Option Int := s.toInt?
+
 def parseReq (firstRun usersExist method path cookie basic ctype bodyLen : String) : Option Req := do
   pure {
     path := ← hexDecode path
@@ -65,7 +77,7 @@ def parseReq (firstRun usersExist method path cookie basic ctype bodyLen : Strin
     cookie := ← parseCookie cookie
     basic := ← parseBasic basic
     ctype := ← hexDecode ctype
-    contentLength := ← bodyLen.toNat?
+    contentLength := ← parseLen bodyLen
     firstRun := ← parseBool firstRun
     usersExist := ← parseBool usersExist }
 
@@ -75,10 +87,17 @@ def specField (req : Req) (declared : Option Bytes) (o : Obs) : Option String :=
 def stepReq (ins impl : List String) : Option String := do
   match ins, impl with
   | [firstRun, usersExist, method, _target, cookie, basic, ctype, bodyLen],
-    [path, muxkind, pattern, kind, _status, _location] =>
+    [path, muxkind, pattern, kind, _status, _location, cl] =>
     let req ← parseReq firstRun usersExist method path cookie basic ctype bodyLen
     let pat ← hexDecode pattern
     let implObs ← parseObs kind
+    let seen ← showLen cl
+    -- the ContentLength the handlers saw is an observation of net/http; the model
+    -- is only meaningful if it is the one the input line announces
+    if seen != req.contentLength then
+      pure (verdict false (specField { req with contentLength := seen } none implObs)
+        "content-length-oracle-violated")
+    else
     match muxkind with
     | "muxredir" =>
       let m := serve .muxRedirect req
@@ -163,6 +182,7 @@ def step (_ : Unit) (line : String) : Unit × String :=
     | none => ((), "bad-op")
   match fs with
   | "C11.req" :: rest => go stepReq rest
+  | "C11.wire" :: rest => go stepReq rest
   | "C11.chain" :: rest => go stepChain rest
   | "C11.public" :: rest => go stepPublic rest
   | "C11.table" :: rest => go stepTable rest
